@@ -186,6 +186,28 @@ thread_local! {
     );
 }
 
+/// judge one raw path string (used by the libFuzzer target and its replays)
+pub fn judge_raw(raw: &str) -> Result<(), Failure> {
+    let malformed = has_malformed_escape(raw.as_bytes());
+    let (w, l) = LOOKUPS.with(|(w, l)| (w("GET", raw, None), l("GET", raw, None)));
+    judge_inproc(raw, &w, &l, malformed)
+}
+
+#[derive(Clone, Debug, Serialize, Deserialize)]
+pub struct FuzzInput {
+    pub bytes: Vec<u8>,
+}
+
+fn check_fuzz_input(c: &FuzzInput, st: &mut Stats) -> Result<(), Failure> {
+    st.eval();
+    st.nontrivial(hash_of(&c.bytes));
+    st.nontrivial(1);
+    match std::str::from_utf8(&c.bytes) {
+        Ok(s) => judge_raw(&format!("/{}", s)),
+        Err(_) => Ok(()),
+    }
+}
+
 fn classify(c: &PathCase, raw: &str, st: &mut Stats) -> bool {
     let mut nontrivial = false;
     let encoded_dot = c.segs.iter().any(|s| (s.bytes == b"." || s.bytes == b"..") && s.bytes.iter().enumerate().any(|(i, _)| s.enc[i % s.enc.len()] != 0));
@@ -406,6 +428,8 @@ pub fn run(ctx: &mut Ctx) {
     ctx.rule = "paths = 0-5 segments over the full byte range (biased to dots, '%', '/', NUL, UTF-8 and broken UTF-8), every byte rendered raw or as %hh in lower/upper/mixed hex, 1-3 slashes between segments and extra leading/trailing slashes; oracle = reference normaliser (split, drop empty, decode once, refuse dot/non-UTF-8) against a wildcard table and a literal/variable table, plus slash-variant metamorphic relation. non-trivial = path with a dot-segment in an encoded spelling, an encoded slash, a non-UTF-8 segment or a %25 double encoding; distinct by raw path".into();
     ctx.assume("for malformed percent escapes only 'no 5xx / no panic' is asserted (the statement is silent on them)");
     ctx.assume("over the wire every byte outside the URI path character set is percent-encoded; targets hyper refuses by itself are not judged");
+    // inputs saved by the libFuzzer target fuzz/fuzz_targets/c03_path.rs (replayed, never generated here)
+    ctx.phase("fuzz_input", 0, Just(FuzzInput { bytes: vec![] }), check_fuzz_input);
     let n = ctx.tier.pick(100000, 2000000);
     ctx.phase("inproc", n, path_case_strategy(), check_inproc);
     ctx.require_frac("inproc", "encoded_dot_segment", "paths", 0.05);
